@@ -1,13 +1,14 @@
 \* C05 typed chains: ALL sequences (not only shortest paths: the history is part of the state)
 \* of <= 3 operations out of {with_mdl, with_name, with_props, map_props, with_completion x2,
-\* start} after New (both verdicts, completions rec1/dflt/dfltL, clock forwards / backwards),
-\* each followed by every terminal operation; replayed on statically typed guards.
+\* start} after New (both verdicts, completions rec1 / dfltl (level only) / dfltp (panic level
+\* only), clock forwards / backwards), each followed by every terminal operation; replayed on
+\* statically typed guards.
 SPECIFICATION Spec
 CONSTANTS
     Mdls = {"m1"}
     Names = {"n1"}
     PropVals = {1}
-    NewComps = {"rec1", "dflt", "dfltL"}
+    NewComps = {"rec1", "dfltl", "dfltp"}
     WithComps = {"rec2", "dflt"}
     CwComps = {"rec3", "dfltL", "ok", "err"}
     Scripts <- MC_ScriptsTyped
